@@ -22,6 +22,7 @@ import LiteFSVerif.Props.C20
 import LiteFSVerif.Model.Cluster
 import LiteFSVerif.Gen.Skel
 import LiteFSVerif.Model.ExpectedSkel
+import LiteFSVerif.Proofs.HaltHandle
 
 namespace LiteFSVerif.C13
 open LiteFSVerif LiteFSVerif.Locks LiteFSVerif.Engine LiteFSVerif.Cluster LiteFSVerif.RWMutex LiteFSVerif.API
@@ -179,5 +180,43 @@ theorem C13_source_skeletons_mount :
     Gen.Skel.LockHandle_Flush = Expected.Skel.LockHandle_Flush ∧
     Gen.Skel.LockHandle_QueryLock = Expected.Skel.LockHandle_QueryLock :=
   ⟨rfl, rfl, rfl, rfl, rfl, rfl⟩
+
+/-! ### the mount side: a release that is interrupted is completed by the retry or the close -/
+
+/-- For a handle of the `-lock` file in any state the invariant allows (in particular: after it was
+    granted the lock), after *any* sequence of release attempts interrupted at either point —
+    while the holder's own recovery waits, or before the request reaches the primary — one
+    uninterrupted `Unlock` (or the `Flush` at close) leaves nothing behind: the handle holds
+    nothing, the replica has no local reference to this lock and the primary does not hold it, so
+    "when the lock is released the primary can write again and the former holder can no longer
+    publish".  (The handle keeps its lock on EINTR; forgetting it there makes the retry a no-op,
+    seeded changes C13-4 / C07-4.) -/
+theorem C13_interrupted_release_is_completed_by_retry (s : HaltHandle.St) (h : HaltHandle.Inv s)
+    (is : List HaltHandle.Intr) :
+    (HaltHandle.unlockHalt (HaltHandle.releases s is) .none).2 = .ok ∧
+    (HaltHandle.unlockHalt (HaltHandle.releases s is) .none).1.handleHeld = false ∧
+    (HaltHandle.unlockHalt (HaltHandle.releases s is) .none).1.local_ ≠ some s.id ∧
+    (HaltHandle.unlockHalt (HaltHandle.releases s is) .none).1.primary ≠ some s.id := by
+  obtain ⟨hinv, hid⟩ := HaltHandle.releases_inv is s h
+  have := HaltHandle.unlockHalt_none_done (HaltHandle.releases s is) hinv
+  rw [hid] at this
+  exact this
+
+/-- the invariant holds initially and is kept by acquisition and by every release attempt -/
+theorem C13_handle_invariant :
+    HaltHandle.Inv ({} : HaltHandle.St) ∧
+    (∀ s : HaltHandle.St, HaltHandle.Inv s → HaltHandle.Inv (HaltHandle.lockWait s).1) ∧
+    (∀ (s : HaltHandle.St) (i : HaltHandle.Intr), HaltHandle.Inv s → HaltHandle.Inv (HaltHandle.unlockHalt s i).1) := by
+  refine ⟨⟨?_, ?_⟩, HaltHandle.lockWait_inv, fun s i h => HaltHandle.unlockHalt_inv s i h⟩
+  · intro h; cases h
+  · intro h; cases h
+
+/-- non-vacuity: a granted lock, two interrupted releases (one at each point), then the retry -/
+example :
+    let s := (HaltHandle.lockWait ({} : HaltHandle.St)).1
+    s.handleHeld = true ∧ s.primary = some 1 ∧
+    (HaltHandle.releases s [.atRecovery, .beforeSend]).primary = some 1 ∧
+    (HaltHandle.unlockHalt (HaltHandle.releases s [.atRecovery, .beforeSend]) .none).1.primary = none := by
+  decide
 
 end LiteFSVerif.C13
